@@ -182,6 +182,8 @@ Definition mk_tx (ty : Z) (from to : addr) (from_ok to_ok : bool) (amount price 
     (h : hash) (sigok : bool) (evm : option evm_effect) : tx :=
   {| t_type := ty; t_from := from; t_to := to; t_from_ok := from_ok; t_to_ok := to_ok; t_amount := amount;
      t_price := price; t_gas := gas; t_nonce := nonce; t_payload := pl; t_hash := h; t_sigok := sigok; t_evm := evm |}.
+Definition mk_evm (ok : bool) (gas : Z) (created : option addr) (accts : list (addr * Z * Z)) : evm_effect :=
+  {| e_ok := ok; e_gas := gas; e_created := created; e_accts := accts |}.
 Definition mk_hdr (h : Z) (prop : option addr) (votes : list (addr * Z * bool)) (evi : list addr) : header :=
   {| h_height := h; h_proposer := prop; h_votes := votes; h_evidence := evi |}.
 Definition mk_gen (p : params) (holders vals : list (addr * Z)) : genesis :=
